@@ -31,7 +31,7 @@ var purePrefixes = []string{
 	"crypto/sha256.", "(hash.", "(*crypto/sha256.", "golang.org/x/crypto/blake2b.", "encoding/json.Marshal", "(net/http.Header)", "net/http.Error",
 	"(*sync.WaitGroup)", "(*sync/atomic.", "sync/atomic.", "(google.golang.org/grpc/", "google.golang.org/grpc/status.", "google.golang.org/grpc/codes.", "google.golang.org/grpc/peer.", "google.golang.org/grpc/metadata.",
 	"(*google.golang.org/protobuf/types/known/timestamppb.Timestamp).AsTime", "google.golang.org/protobuf/types/known/timestamppb.",
-	"os.Getenv", "(*math/big.", "(error).Error", modPath + "/internal/net.RemoteAddress", "(" + modPath + "/internal/net.Peer).", "(*" + modPath + "/common/key.Identity).Address", "(*" + modPath + "/common/key.Node).Address",
+	"os.Getenv", "(*math/big.", "(error).Error", "(*sync.Once).Do", modPath + "/internal/net.RemoteAddress", "(" + modPath + "/internal/net.Peer).", "(*" + modPath + "/common/key.Identity).Address", "(*" + modPath + "/common/key.Node).Address",
 }
 
 func (e *Engine) isPure(key string) bool {
@@ -437,6 +437,16 @@ func (vf *VerifyFunc) applyContract(st *State, fr *Frame, in ssa.Instruction, fc
 	for i, n := range fc.Params {
 		if i < len(all) && n != "_" {
 			env[n] = all[i]
+		}
+	}
+	// a closure's free variables are visible in its contract under their source names
+	if fnv != nil && fnv.Fn != nil {
+		if sf, ok := fnv.Fn.Static.(*ssa.Function); ok {
+			for i, fv := range sf.FreeVars {
+				if i < len(fnv.Fn.Bindings) {
+					env["&"+fv.Name()] = fnv.Fn.Bindings[i]
+				}
+			}
 		}
 	}
 	vf.addPkgEnv(env, fc.PkgPath)
@@ -998,4 +1008,44 @@ func (e *Engine) staticType(fc *FuncContract, x Expr) types.Type {
 		}
 	}
 	return nil
+}
+
+// goSite: `go f(args)` — precondition obligations of f (if it has a contract) at the spawn site.
+func (vf *VerifyFunc) goSite(st *State, fr *Frame, g *ssa.Go) {
+	if len(st.frames) != 1 {
+		return
+	}
+	cc := &g.Call
+	args, fnv := vf.evalCallArgs(st, fr, cc)
+	key := vf.eng.calleeKey(cc)
+	var bindings []*Val
+	if fnv != nil && fnv.Fn != nil {
+		if key == "" {
+			key = fnv.Fn.Key
+		}
+		bindings = fnv.Fn.Bindings
+	}
+	fc := vf.eng.cs.Funcs[key]
+	if fc == nil {
+		return
+	}
+	label := vf.eng.info(fr.fn).callOrd[g]
+	env := map[string]*Val{}
+	for i, n := range fc.Params {
+		if i < len(args) && n != "_" {
+			env[n] = args[i]
+		}
+	}
+	// free variables of a closure are visible in its contract under their source names
+	if fn := vf.eng.funcsByKey[key]; fn != nil {
+		for i, fv := range fn.FreeVars {
+			if i < len(bindings) {
+				env["&"+fv.Name()] = bindings[i]
+			}
+		}
+	}
+	for i, c := range fc.Requires {
+		t := vf.evalClauseIn(st, c, env, nil, fc.PkgPath)
+		st.check("pre", fmt.Sprintf("go %s#%d/%s", label.name, label.ord, lbl(c, fmt.Sprint(i))), c.Prop, c.Src, st.pos(g), t)
+	}
 }
